@@ -29,6 +29,8 @@ def one(args):
 
 def main():
     a = sys.argv[1:]
+    if any(x.startswith('-') and x not in ('--only','--props','--jobs','--out','-v') for x in a):
+        sys.exit(__doc__ + '\n(unknown option)')
     only, props, jobs, verbose = [], [], 14, False
     cur = None
     i = 0
